@@ -71,17 +71,22 @@ def replay_behaviour(prop, payload):
 def c12(tier, seed):
     res = Result("C12", tier, seed, "model_checking")
     wd = workdir("C12")
-    cfgs = ["MC_Qdldl_new2.cfg", "MC_Qdldl_perm3.cfg", "MC_Qdldl_new3q.cfg", "MC_Qdldl_hist3.cfg", "MC_Qdldl_hist3x.cfg"]
+    cfgs = ["MC_Qdldl_new2.cfg", "MC_Qdldl_edge2.cfg", "MC_Qdldl_perm3.cfg", "MC_Qdldl_new3q.cfg", "MC_Qdldl_hist3.cfg", "MC_Qdldl_hist3x.cfg"]
     if tier == "thorough":
-        cfgs = ["MC_Qdldl_new2.cfg", "MC_Qdldl_perm3.cfg", "MC_Qdldl_new3.cfg", "MC_Qdldl_hist3.cfg", "MC_Qdldl_hist3x.cfg", "MC_Qdldl_new4.cfg"]
+        cfgs = ["MC_Qdldl_new2.cfg", "MC_Qdldl_edge2.cfg", "MC_Qdldl_edge3.cfg", "MC_Qdldl_perm3.cfg", "MC_Qdldl_new3.cfg", "MC_Qdldl_hist3.cfg", "MC_Qdldl_hist3x.cfg", "MC_Qdldl_new4.cfg"]
     r = spec_to_impl(res, "C12", "MC_Qdldl.tla", cfgs, "qdldl-replay", wd, "qdldl", workers=8 if tier == "quick" else 12)
+    # raw encodings: dimensions, positions below the diagonal, unsorted columns
+    rr = spec_to_impl(res, "C12", "QdldlRaw.tla", ["MC_QdldlRaw.cfg" if tier == "quick" else "MC_QdldlRaw4.cfg"], "qdldl-replay", wd, "qdldlraw", workers=4)
+    r["states"] += rr["states"]; r["behaviours"] += rr["behaviours"]; r["per_cfg"].update(rr["per_cfg"])
     res.coverage = {"states": r["states"], "transitions": max(1, r["transitions"]),
                     "traces_validated_against_impl": r["behaviours"],
                     "evaluations": r["behaviours"], "distinct_nontrivial": r["distinct_nontrivial"],
                     "rule": "every behaviour of the bounded Qdldl instances (all matrices over the value sets incl. structurally missing "
                             "entries, all permutation vectors valid or not, D-sign vectors, regularisation on/off; histories of "
                             "update/scale/offset/refactor) is executed on the real engine; non-trivial = model outcome Ok (a numeric "
-                            "factorisation is compared entry by entry with exact rationals) or a history",
+                            "factorisation is compared entry by entry with exact rationals) or a history; edge2/edge3: regularisation enabled with "
+                            "eps <= 0 or delta = 0 (a zero pivot must still be reported); QdldlRaw: every raw encoding with dimensions <= 3 (4 thorough), any stored "
+                            "positions incl. below the diagonal, columns stored ascending or descending -> structural error kind in the engine's order",
                     "per_cfg": r["per_cfg"], "samples": r["samples"], "exhaustive": True,
                     "checker_cmd": "tlc MC_Qdldl.tla (configs above) ; vh qdldl-replay",
                     "trusted_base": ["TLC", "Rational.tla", "harness replayer comparison (1e-11 relative float vs rational)"]}
@@ -377,14 +382,36 @@ def c11(tier, seed):
             payload = {"kind": "kkt-replay" if e.get("ev") == "KKTState" else "events", "prop": "C11", "event": e, "count": len(evs),
                        "spec": "KKT.tla", "cfg": "KKT.cfg", "case": cases.get(e.get("id")) if e.get("ev") == "KKTState" else None}
             res.violation(("kkt-" + cls)[:80].replace("/", "_"), payload, f"{len(evs)} events of class {cls}", key=cls)
+    # KKT solves with iterative refinement: Refine.tla (design) + Trace_Refine.tla (every real solve's steps)
+    mcs = [run_mc("Refine.tla", c, workers=2, timeout=600, coverage=False, name=c[:-4]) for c in (["MC_Refine.cfg", "MC_Refine_r1.cfg"] if tier == "quick" else ["MC_Refine.cfg", "MC_Refine_r1.cfg", "MC_Refine_big.cfg"])]
+    tr2, cs2 = os.path.join(wd, "kktsolve.ndjson"), os.path.join(wd, "kktsolve.cases.ndjson")
+    p2 = run_vh(["kktsolve", "--seed", seed, "--count", 300 if tier == "quick" else 6000, "--out", tr2, "--cases", cs2], timeout=4 * 3600)
+    meta2 = json.loads(p2.stdout.strip().splitlines()[-1])
+    v2 = validate_trace("Trace_Refine.tla", "Trace_Refine.cfg", tr2, nshards=8, boundary=lambda e: True)
+    if not v2["ok"]:
+        cases2 = {c["run"]: c for c in read_ndjson(cs2)}
+        groups = {}
+        for rj in v2["rejects"]:
+            e = rj["event"] or {}
+            cls = "solve-panic" if e.get("ev") == "Panic" else "solve:" + ("refined" if e.get("ir_enabled") else "plain") + (":failed" if not e.get("ok") else "")
+            groups.setdefault(cls, []).append(e)
+        for cls, evs in groups.items():
+            e = evs[0]
+            payload = {"kind": "kkt-replay", "prop": "C11", "event": e, "count": len(evs), "spec": "Trace_Refine.tla", "cfg": "Trace_Refine.cfg", "case": cases2.get(e.get("id"))}
+            res.violation(("kkt-" + cls).replace(":", "_"), payload, f"{len(evs)} KKT solves rejected ({cls}): {json.dumps({k: e.get(k) for k in ('ok', 'end_ok', 'converged', 'maxiter', 'thr_ok')})}", key=cls)
+    if not res.violations and (meta2["refinement_steps"] < 100 or meta2["converged"] == 0 or meta2["stalled"] == 0 or meta2["failed"] == 0 or meta2["with_aux"] == 0):
+        raise ToolError(f"vacuity guard: the KKT-solve corpus does not exercise every exit of the refinement loop: {meta2}")
     nstate = [e for e in lines if e.get("ev") == "KKTState"]
-    res.coverage = {"states": max(1, v["states"]), "transitions": max(1, v["transitions"]), "traces_validated_against_impl": v["events"],
+    res.coverage = {"refine": {"mc_states": sum(m["states"] for m in mcs), "solves": v2["events"], **meta2}, "states": max(1, v["states"]), "transitions": max(1, v["transitions"]), "traces_validated_against_impl": v["events"],
                     "evaluations": v["events"], "distinct_nontrivial": len({json.dumps([e.get("colptr"), e.get("rowval"), e.get("triu")]) for e in lines if "colptr" in e}),
                     "rule": "layouts: 14 cone lists (zero, NN, SOC below/above the sparse-expansion threshold, several expanded SOCs, exp, power, generalised power, "
                             "PSD, mixtures, empty) x all upper-triangular patterns of P for n<=3 (with/without diagonal entries) x patterns of A (exhaustive up to 6 cells "
                             "in thorough, sampled otherwise) x both triangles, assembled by the real code through a wrapper and checked by TLC against KKT.tla "
                             "(coordinates of every map entry, injectivity, disjointness, cover, complete diagonal, triangle); states: real solvers after k = 0..200 "
                             "iterations (value layer: copies bit-equal, no regularisation left, sign pattern, regulariser value, H_K z = s by Schur elimination); "
+                            "solves: 4 direct solves per solver state (right-hand sides of magnitude 1, 1e10, 1e-10, 1e300, 0) over a refinement settings lattice "
+                            "(max_iter 0..10, tolerances 1e-10..1e-30, stop ratio 1..5, static regulariser 1e-8..1e-2 or off), each loop decision re-derived by "
+                            "Trace_Refine.tla and the final residual recomputed from the unregularised KKT view; "
                             "distinct = distinct (structure, triangle) pairs",
                     "meta": meta, "kkt_states": len(nstate), "samples": [{k: e[k] for k in ("ev", "triu", "n", "m", "p", "cones")} for e in sample(lines, 3) if "cones" in e],
                     "trusted_base": ["TLC", "Csc.tla Canonical", "observer Schur complement"]}
